@@ -20,7 +20,9 @@ from vmc.c01 import _write_pins, enumerate_cases, enumerate_plan
 from vmc.common import HarnessError, Report, pmap
 
 BACKTICK = sqlgen.BACKTICK
-KINDS = ["nl", "blank", "block", "line", "kwupper", "idupper", "quote", "semi", "semi_block", "semi_line"]
+KINDS = ["nl", "nl1", "tab", "blank", "block", "line", "kwupper", "idupper", "quote", "semi", "semi_block", "semi_line"]
+LEGACY = "non-validating"
+LEGACY_KINDS = {"nl", "nl1", "tab", "kwupper"}  # the sqlparse-based analyzer: existing blanks re-laid out, keyword case
 
 
 def lex(sql, dialect):
@@ -49,6 +51,8 @@ def sites(toks, dialect):
     for i, (raw, k) in enumerate(toks):
         if k == "ws":
             out.append(("nl", i))
+            out.append(("nl1", i))
+            out.append(("tab", i))
         if i > 0 and k != "ws" and toks[i - 1][1] != "ws":
             out.append(("blank", i))
         if i > 0:
@@ -83,6 +87,10 @@ def apply(toks, dialect, chosen):
             pre += " -- c;c\n"
         if "nl" in ks:
             raw = "\n\t "
+        if "nl1" in ks:
+            raw = "\n"
+        if "tab" in ks:
+            raw = "\t"
         if "kwupper" in ks or "idupper" in ks:
             raw = raw.upper()
         if "quote" in ks:
@@ -131,17 +139,22 @@ def obs(sql, dialect):
 
 
 def _eval(task):
-    seed_id, sql, dialect, variants = task
+    seed_id, sql, dialect, variants = task[:4]
+    analyzer = task[4] if len(task) > 4 else dialect  # the tokens are sqlfluff's under `dialect`; the analysis may be the legacy analyzer's
     toks = lex(sql, dialect)
     if toks is None:
         return {"seed_rejected": True}
-    base = obs(sql, dialect)
+    base = obs(sql, analyzer)
     if "exception" in base:
         return {"seed_rejected": True}
     all_sites = sites(toks, dialect)
+    if analyzer == LEGACY:
+        all_sites = [x for x in all_sites if x[0] in LEGACY_KINDS]
     plan = []
     if variants == "single+all" or variants == "pairs":
-        plan += [[s] for s in all_sites]
+        # single-site "\n" / "\t" re-layouts are explored for the sqlparse-based analyzer; under sqlfluff they add nothing to
+        # the single-site "\n\t " one and are kept in their all-sites-at-once form
+        plan += [[s] for s in all_sites if s[0] not in ("nl1", "tab") or analyzer == LEGACY]
     for kind in KINDS:
         ss = [s for s in all_sites if s[0] == kind]
         if len(ss) > 1:
@@ -157,13 +170,13 @@ def _eval(task):
         kinds_here = {}
         for k, i in chosen:
             kinds_here.setdefault(i, set()).add(k)
-        if any({"kwupper", "idupper"} & ks and "quote" in ks for ks in kinds_here.values()):
+        if any({"kwupper", "idupper"} & ks and "quote" in ks or len({"nl", "nl1", "tab"} & ks) > 1 for ks in kinds_here.values()):
             continue
         text = apply(toks, dialect, chosen)
         n += 1
         if not all(k.startswith("semi") for k, _ in chosen):
             inner_texts.add(text)
-        o = obs(text, dialect)
+        o = obs(text, analyzer)
         if o == base:
             continue
         if not eligible(toks, text, dialect):
@@ -219,6 +232,8 @@ def run(tier: str, opts: dict) -> int:
     if tier != "quick":
         short = sorted([s for s in seeds if s[3] == "single+all"], key=lambda s: len(s[1]))[:50]
         seeds = [(a, b, c, "pairs") if (a, b, c, d) in short else (a, b, c, d) for a, b, c, d in seeds]
+    # the same seeds under the sqlparse-based analyzer (ansi-lexed seeds; generated seeds always, corpus seeds in thorough)
+    seeds += [(a, b, c, "single+all" if d == "pairs" else d, LEGACY) for a, b, c, d in seeds if c == "ansi" and (tier != "quick" or a.startswith("gen:"))]
     res = pmap(_eval, seeds, chunk=1)
     regen = opts.get("regen_pins")
     new_pins = {}
@@ -232,7 +247,7 @@ def run(tier: str, opts: dict) -> int:
         n_skip += r["skipped"]
         nontrivial += r["inner"]
         for b in r["bad"]:
-            key = f"{t[2]}|{b['text']}"
+            key = f"{t[4] if len(t) > 4 else t[2]}|{b['text']}"
             dg = common.digest(b["obs"])
             if regen:
                 new_pins[key] = [classify(t, b), dg]
@@ -241,7 +256,7 @@ def run(tier: str, opts: dict) -> int:
             if fid:
                 rep.known_finding(fid)
             else:
-                rep.violation("rewrite-changes-lineage", {"seed": t[0], "dialect": t[2], "original": t[1], "rewritten": b["text"], "sites": b["sites"], "context": b["context"]},
+                rep.violation("rewrite-changes-lineage", {"seed": t[0], "dialect": t[2], "analyzer": t[4] if len(t) > 4 else t[2], "original": t[1], "rewritten": b["text"], "sites": b["sites"], "context": b["context"]},
                               {"original": r["base"], "rewritten": b["obs"]})
     if regen:
         by = {}
@@ -259,7 +274,7 @@ def run(tier: str, opts: dict) -> int:
         distinct_nontrivial=nontrivial,
         seeds=len(seeds) - n_rej,
         seeds_not_parsed_by_sqlfluff=n_rej,
-        rule=f"seeds: corpus single statements (quick: one per test function) + TPC-DS + generator cases; rewrites {KINDS}: every rewrite at every site singly, "
+        rule=f"seeds: corpus single statements (quick: one per test function) + TPC-DS + generator cases, the ansi ones also under the sqlparse-based analyzer (blank layout and keyword case only); rewrites {KINDS}: every rewrite at every site singly, "
         "every kind at all its sites at once (long seeds: only that), thorough: all pairs of sites for the 50 shortest seeds; non-trivial = distinct rewritten texts whose rewrite lies inside the statement (not only appended semicolons), counted per seed",
         exhaustive=True,
         ineligible_variants_skipped=n_skip,
@@ -274,13 +289,14 @@ def run(tier: str, opts: dict) -> int:
 
 def replay(body: dict, opts: dict) -> int:
     c = body["case"]
-    base = obs(c["original"], c["dialect"])
-    o = obs(c["rewritten"], c["dialect"])
+    an = c.get("analyzer", c["dialect"])
+    base = obs(c["original"], an)
+    o = obs(c["rewritten"], an)
     print(json.dumps({"original": base, "rewritten": o}, indent=1)[:3000])
     if o == base:
         print("OK on replay")
         return 0
-    fid = common.Findings("C07").pinned(f"{c['dialect']}|{c['rewritten']}", common.digest(o))
+    fid = common.Findings("C07").pinned(f"{an}|{c['rewritten']}", common.digest(o))
     if fid:
         print(f"KNOWN-FINDING: property=C07 {fid}")
         return 0
